@@ -27,6 +27,15 @@ def plan(tier, seed):
                 regs.append('c03::Cmp<%s, %s, 1>::reg("scaled|%s:%d|%s:%d")' % (sc(lr, el), sc(rr, er), short(lr), el, short(rr), er))
     for lr, rr, el, er in [(S32, S32, -2, 0), (S64, S32, 0, -3), (S16, U8, 1, -1), (U32, U64, -4, -4), (S64, S64, 3, 5), (S32, U32, -1, 0)]:
         regs.append('c03::Cmp<%s, %s, 1>::reg("scaled10|%s:%d|%s:%d")' % (sc(lr, el, 10), sc(rr, er, 10), short(lr), el, short(rr), er))
+    # radix 10 over narrow and wide reps with gaps whose factor exceeds the narrow rep itself (10^3 > int8, 10^5 > int16)
+    R10 = [S8, U8, S16, U16, S32, S64]
+    E10 = [(0, -3), (-5, 0), (2, -2), (1, 6), (-1, -1), (-4, 3), (0, -7)]
+    for i, lr in enumerate(R10):
+        for j, rr in enumerate(R10):
+            for k, (el, er) in enumerate(E10):
+                if quick and (i + j + k) % 3:
+                    continue
+                regs.append('c03::Cmp<%s, %s, 1>::reg("scaled10|%s:%d|%s:%d")' % (sc(lr, el, 10), sc(rr, er, 10), short(lr), el, short(rr), er))
     # elastic family: by value
     for i, (d1, n1) in enumerate(ELASTIC):
         for j, (d2, n2) in enumerate(ELASTIC):
